@@ -34,8 +34,60 @@ func hsmsParse(b []byte) (msg ast.HSMSMessage, ok bool, o real.Outcome) {
 	return
 }
 
+const smlProbeText = "S99F1 W H->E probe\n<L <U1 7> <A \"probe\">> ."
+
+// smlParse is sml.Parse with two history devices around it (both silent unless something is wrong):
+//   - for one input in four a small unrelated text is parsed after the call, and what the call returned must still be what it was (results are
+//     not lent from storage the next call reuses);
+//   - for one short input in four the caller does what it may do with its result - it copies it, then clears every
+//     entry of the returned slices - and parses the same text again: the second result equals the first (results are
+//     not handed out twice).
 func smlParse(s string) (msgs []*ast.DataMessage, errs, warns []string, o real.Outcome) {
 	o = real.Try(func() { msgs, errs, warns = sml.Parse(s) })
+	if o.Panicked {
+		return
+	}
+	heads := func(ms []*ast.DataMessage) string {
+		var sb strings.Builder
+		for _, m := range ms {
+			if m == nil {
+				sb.WriteString("<nil>|")
+				continue
+			}
+			sb.WriteString(m.Header())
+			sb.WriteString("|")
+		}
+		return sb.String()
+	}
+	before := heads(msgs) + fmt.Sprint(errs, warns)
+	if len(s) < 2000 && rng.HashStr(s)%4 == 0 {
+		m2 := append([]*ast.DataMessage(nil), msgs...)
+		e2 := append([]string(nil), errs...)
+		w2 := append([]string(nil), warns...)
+		for i := range msgs {
+			msgs[i] = nil
+		}
+		for i := range errs {
+			errs[i] = "cleared by the caller"
+		}
+		for i := range warns {
+			warns[i] = "cleared by the caller"
+		}
+		var m3 []*ast.DataMessage
+		var e3, w3 []string
+		real.Try(func() { m3, e3, w3 = sml.Parse(s) })
+		if again := heads(m3) + fmt.Sprint(e3, w3); again != before && real.OnAnomaly != nil {
+			real.OnAnomaly(fmt.Sprintf("sml.Parse(%q) gave %q; the caller cleared the slices it had got, and the same text then parsed to %q", clipS(s), clipS(before), clipS(again)))
+		}
+		msgs, errs, warns = m2, e2, w2
+	}
+	if rng.HashStr(s)%4 != 1 {
+		return // the probe device runs for one input in four as well
+	}
+	real.Try(func() { sml.Parse(smlProbeText) })
+	if after := heads(msgs) + fmt.Sprint(errs, warns); after != before && real.OnAnomaly != nil {
+		real.OnAnomaly(fmt.Sprintf("the result of sml.Parse(%q) read %q; after another text was parsed the same slices read %q", clipS(s), clipS(before), clipS(after)))
+	}
 	return
 }
 
